@@ -14,15 +14,13 @@ pub assume_specification<T: Ord>[ core::cmp::min::<T> ](a: T, b: T) -> (r: T)
             vstd::std_specs::cmp::OrdSpec::cmp_spec(&a, &b) != core::cmp::Ordering::Greater ==> r == a;
 
 /// N2 chain shim: the body is exactly the source chain `SRC.into_iter().filter_map(F).collect()`
-/// for BTreeMap -> BTreeMap.  Contract: the result holds f(k, v) for every source pair that f maps
-/// to Some; sound because f is required to be key-preserving and functional on the source pairs
-/// (otherwise `collect`'s last-wins behaviour would matter).
+/// for BTreeMap -> BTreeMap.  Contract: the result holds what f returned for every source pair that f mapped
+/// to Some; sound because f is required to be key-preserving (then no two results collide in `collect`).
 #[verifier::external_body]
 pub fn shim_btreemap_filter_map_collect<K: Ord, V, F: FnMut((K, V)) -> Option<(K, V)>>(src: BTreeMap<K, V>, f: F) -> (r: BTreeMap<K, V>)
     requires
         forall|k: K| src@.contains_key(k) ==> call_requires(f, ((k, #[trigger] src@[k]),)),
         forall|k: K, o: Option<(K, V)>| src@.contains_key(k) && #[trigger] call_ensures(f, ((k, src@[k]),), o) ==> (o matches Some(p) ==> p.0 == k),
-        forall|k: K, o1: Option<(K, V)>, o2: Option<(K, V)>| src@.contains_key(k) && #[trigger] call_ensures(f, ((k, src@[k]),), o1) && #[trigger] call_ensures(f, ((k, src@[k]),), o2) ==> o1 == o2,
     ensures
         forall|k: K| #[trigger] r@.contains_key(k) ==> src@.contains_key(k) && call_ensures(f, ((k, src@[k]),), Some((k, r@[k]))),
         forall|k: K| #[trigger] src@.contains_key(k) && !r@.contains_key(k) ==> call_ensures(f, ((k, src@[k]),), None),
